@@ -248,7 +248,11 @@ fn update_best_com(
     resolution: f64,
     directed: bool,
 ) {
-    for (nbr_com, wt) in weights2com {
+    // visit the candidate communities in a fixed order: with a strict `>` the first of several
+    // equal gains wins, and the iteration order of a HashMap differs from run to run
+    let mut candidates: Vec<(usize, f64)> = weights2com.into_iter().collect();
+    candidates.sort_by(|a, b| a.0.cmp(&b.0));
+    for (nbr_com, wt) in candidates {
         let gain = match directed {
             true => {
                 wt - resolution
